@@ -25,7 +25,7 @@ const checkerTimeout = 60 * time.Second
 // seconds without CPU consumption after which a goroutine snapshot is requested (it only
 // chooses when to look; the snapshot decides, see proc.go)
 const workerStallSecs = 5 // workers answer without dying, so looking early costs nothing
-const cliStallSecs = 45    // the CLI dies of the request (SIGQUIT)
+const cliStallSecs = 20    // the CLI dies of the request (SIGQUIT)
 
 type driver struct {
 	e  *lib.Env
